@@ -197,6 +197,19 @@ def h_parse(eng, u):
             _close(eng, mag.std_dev, e, "parse:std")
             if u in text:
                 eng.prove(str(q.units) == u, "parse:units")
+        # parenthesised-uncertainty notation: the digits in parentheses are aligned with the last
+        # digits of the nominal value (1.234(5) = 1.234 +/- 0.005); an explicit decimal point in
+        # the parentheses gives the error as written
+        for text, nv, sv in (
+            ("8.0(4)", "8.0", "0.4"), ("1.234(5)", "1.234", "0.005"), ("1.234(56)", "1.234", "0.056"), ("123(4)", "123", "4"), ("12.30(4)", "12.30", "0.04"),
+            ("1.25(50)", "1.25", "0.50"), ("12.3(45)", "12.3", "4.5"), ("1.0(1.5)", "1.0", "1.5"), ("2.500(50)e-07", "2.500e-07", "0.050e-07"), ("0.0(4.0)e-05", "0", "4.0e-05"),
+        ):
+            q = ureg.parse_expression(f"{text} {u}")
+            mag = q.magnitude
+            eng.prove(hasattr(mag, "nominal_value"), f"parse-paren:uncertain-magnitude:{text}")
+            cv = (lambda t: float(t)) if not eng.symbolic else (lambda t: eng.num(Fraction(t)))
+            _close(eng, mag.nominal_value, cv(nv), f"parse-paren:nominal:{text}")
+            _close(eng, mag.std_dev, cv(sv), f"parse-paren:std:{text}")
         # an exponent suffix applies to the nominal value and to the error alike -- also when the
         # nominal mantissa is zero, which is how pint itself renders Measurement(0, 4e-05, u)
         for k, etext in ((-5, "e-05"), (3, "e+03"), (2, "e2")):
@@ -210,6 +223,39 @@ def h_parse(eng, u):
                     _close(eng, mag.nominal_value, vv, f"parse-exp:nominal:{vn}:{etext}")
                     _close(eng, mag.std_dev, e * scale, f"parse-exp:std:{vn}:{etext}")
                     eng.prove(str(q.units) == u, "parse-exp:units")
+
+
+def h_format_roundtrip(eng):
+    """the plain-text measurement formats render a text that the parser reads back as the same
+    measurement (float registry with the real uncertainties package; values whose digits are
+    printed in full by the spec)"""
+    import math
+
+    ureg = regs.float_default()
+    rows = [
+        (1234.5, 2.5, "second", ["", "D", "C", "~D", "~C", ".2uS"]),
+        (-3.75, 0.25, "newton", ["", "D", "C", "~D", "~C", ".2uS", ".3e"]),
+        (2.5e-7, 5e-9, "meter / second", ["", "D", "C", "~C", ".2uS", ".3e", ".1ue"]),
+        (0.0, 4e-05, "meter", ["", "D", "C", "~C", ".2uS", ".3e", ".1ue"]),
+        (1.25, 0.5, "meter", [".2uS", ".3e", ".2f"]),
+        (4.0e20, 1.0e19, "second ** 2", ["", "C", ".2uS"]),
+    ]
+    for v, e, unit, specs in rows:
+        m = ureg.Measurement(v, e, unit)
+        for spec in specs:
+            text = format(m, spec)
+            try:
+                back = ureg.parse_expression(text)
+            except Exception as ex:  # noqa: BLE001
+                eng.fail(f"measurement-format-not-parsed:{spec or 'default'}:{v}", detail=f"{text!r}: {type(ex).__name__}")
+                continue
+            mag = getattr(back, "magnitude", None)
+            ok = hasattr(mag, "nominal_value") and math.isclose(mag.nominal_value, v, rel_tol=1e-12, abs_tol=1e-300) and math.isclose(mag.std_dev, e, rel_tol=1e-12) and back.units == m.units
+            if not ok:
+                eng.fail(f"measurement-format-roundtrip:{spec or 'default'}:{v}", detail=f"{text!r} -> {back!r}", stop=False)
+            else:
+                eng.prove(True, f"measurement-format-roundtrip:{spec or 'default'}:{v}")
+        eng.prove(m.value.magnitude == v and m.error.magnitude == e, f"measurement-unaltered:{v}")
 
 
 MIN_DISCHARGED = {"H19.a": 200, "H19.b": 100, "H19.c": 100}
@@ -226,6 +272,7 @@ def cases(tier, seed):
         out.append(Case("H19.c", f"arith:{u},{w}", M, "h_arith", {"u": u, "w": w}, validate=0))
     for u, w in [("degree_Celsius", "degree_Fahrenheit"), ("degree_Fahrenheit", "kelvin"), ("kelvin", "degree_Celsius"), ("degree_Rankine", "degree_Reaumur")]:
         out.append(Case("H19.b", f"convert:{u}->{w}", M, "h_convert", {"u": u, "w": w}, validate=1))
+    out.append(Case("H19.e", "format-roundtrip", M, "h_format_roundtrip", {}, kind="conc"))
     for u in ("meter", "second", "newton"):
         out.append(Case("H19.a", f"negative-error:{u}", M, "h_negative_error", {"u": u}, validate=1))
         out.append(Case("H19.d", f"parse:{u}", M, "h_parse", {"u": u}, validate=1))
